@@ -9,85 +9,180 @@ COUNT = {"quick": 300, "thorough": 5000, "search": 1500}
 PARALLEL = True
 DOCUMENTED = ["score", "geom1", "geom2", "subtomo_id", "tomo_id", "object_id", "subtomo_mean", "x", "y", "z",
               "shift_x", "shift_y", "shift_z", "geom3", "geom4", "geom5", "phi", "psi", "theta", "class"]
-RULE = ("tables of N particles with the 20 fields in a random column permutation (identity, single transposition or full "
-        "shuffle), cell values drawn from small integers / normals / float32 half-ulp ties / subnormal range / near float32 "
-        "overflow / +-0 / NaN holes, written through Motl.write_out(...,'emmotl') and EmMotl.write_out; non-trivial = N>=2, "
-        "permutation != identity, >=1 NaN and >=1 value not representable in float32; distinct = distinct (cols, rows) content")
-ASSUMPTIONS = ["numpy astype(np.single) = IEEE round-to-nearest-even = Lean Float.toFloat32 (compared bit for bit on every case)",
-               "emfile.write stores the array it is given in C order after a 512-byte header (checked by the harness's own EM parser)"]
-TRUSTED = ["harness EM header parser (props/c01.py parse_em)"]
+RULE = ("tables of N particles (N = 1..40, plus fixed 64/65/256/257/1000 in quick and up to 4099 in thorough) with the 20 fields in a "
+        "random column permutation (identity, single transposition or full shuffle); cell values from small integers / normals / "
+        "2-3-decimal numbers / float32 half-ulp ties of either sign over the whole exponent range (subnormal, tiny, ordinary, huge) / "
+        "underflow range / float32 max / +-0 / NaN holes; repeated rows and repeated id pairs; int64-typed columns; non-default row "
+        "labels; written through Motl.write_out (motl_type omitted, 'emmotl', keyword, 'EMMOTL'/'EmMotl') and EmMotl.write_out, loaded "
+        "through Motl.load(p) / Motl.load(p,'emmotl') / keyword / EmMotl(p), str and pathlib paths; the bytes of every real file are "
+        "judged by the Lean checker checkFile and compared with the model's encodeEm(writeGen); non-trivial = N>=2, permutation != "
+        "identity, >=1 NaN and >=1 value not representable in float32; distinct = distinct case content")
+ASSUMPTIONS = ["numpy astype(np.single) = IEEE round-to-nearest-even = Lean Float.toFloat32 (compared bit for bit on every case, and against numpy's own cast in the Python oracle)",
+               "emfile.write lays down the 512-byte header modelled by emHeader and the array in C order, little-endian (compared byte for byte with the model's encodeEm on every case)"]
+TRUSTED = ["hex transport of the file bytes to the driver (Drv/C01 parseHex/toHex)", "harness EM header parser (props/c01.py parse_em) for the Python-side oracle only"]
 
 
 # ------------------------------------------------------------------ translator
-def _no_doc(fn):
-    """function body without its docstring, unparsed"""
-    body = fn.body[1:] if (fn.body and isinstance(fn.body[0], ast.Expr) and isinstance(getattr(fn.body[0], "value", None), ast.Constant)
-                           and isinstance(fn.body[0].value.value, str)) else fn.body
-    return body
+# Structural (AST) anchors only: no substring tests on unparsed text, local variable names are free, type annotations,
+# docstrings and message texts are never looked at.
+_SINGLE = {"single", "float32", "f4", "<f4", "=f4", "f"}
+_DOUBLE = {"double", "float64", "f8", "<f8", "=f8", "d", "float", "float_"}
+
+
+def _body(fn):
+    """function body without its docstring"""
+    b = fn.body
+    if b and isinstance(b[0], ast.Expr) and isinstance(getattr(b[0], "value", None), ast.Constant) and isinstance(b[0].value.value, str):
+        return b[1:]
+    return b
+
+
+class _Inline(ast.NodeTransformer):
+    """replace loaded local names by the expression last assigned to them (binding occurrence decides, not the spelling)"""
+
+    def __init__(self, env):
+        self.env = env
+
+    def visit_Name(self, node):
+        if isinstance(node.ctx, ast.Load) and node.id in self.env:
+            return self.env[node.id]
+        return node
+
+
+def _flow(stmts, env, sink):
+    """walk straight-line statements in order, keeping for every local name the expression it holds (locals inlined);
+    `sink(call_node_with_inlined_args)` sees every call statement / call inside an expression statement"""
+    import copy
+    for st in stmts:
+        if isinstance(st, ast.Assign) and len(st.targets) == 1 and isinstance(st.targets[0], ast.Name):
+            env[st.targets[0].id] = _Inline(env).visit(copy.deepcopy(st.value))
+        elif isinstance(st, ast.AnnAssign) and isinstance(st.target, ast.Name) and st.value is not None:  # `x: T = v` is `x = v`
+            env[st.target.id] = _Inline(env).visit(copy.deepcopy(st.value))
+        elif isinstance(st, ast.AugAssign) and isinstance(st.target, ast.Name):
+            cur = env.get(st.target.id, ast.Name(id=st.target.id, ctx=ast.Load()))
+            env[st.target.id] = ast.BinOp(left=cur, op=st.op, right=_Inline(env).visit(copy.deepcopy(st.value)))
+        elif isinstance(st, (ast.Expr, ast.Return)) and st.value is not None:
+            sink(_Inline(env).visit(copy.deepcopy(st.value)))
+        for fld in ("body", "orelse", "finalbody"):
+            sub = getattr(st, fld, None)
+            if isinstance(sub, list) and not isinstance(st, (ast.FunctionDef, ast.AsyncFunctionDef, ast.ClassDef)):
+                _flow([x for x in sub if isinstance(x, ast.stmt)], env, sink)
+
+
+def _is_motl_columns(e):
+    """`Motl.motl_columns` / `self.motl_columns` / `EmMotl.motl_columns` / `type(self).motl_columns`, optionally in list(...)"""
+    if isinstance(e, ast.Call) and isinstance(e.func, ast.Name) and e.func.id == "list" and len(e.args) == 1 and not e.keywords:
+        e = e.args[0]
+    return isinstance(e, ast.Attribute) and e.attr == "motl_columns"
+
+
+def _dtype_name(e):
+    """np.single / numpy.float32 / "float32" / 'single' / np.dtype("f4") / float  ->  lower-case dtype name"""
+    if isinstance(e, ast.Call) and isinstance(e.func, ast.Attribute) and e.func.attr == "dtype" and len(e.args) == 1:
+        e = e.args[0]
+    if isinstance(e, ast.Constant) and isinstance(e.value, str):
+        return e.value.lower()
+    if isinstance(e, ast.Attribute):
+        return e.attr.lower()
+    if isinstance(e, ast.Name):
+        return e.id.lower()
+    return None
+
+
+def _number(e):
+    if isinstance(e, ast.UnaryOp) and isinstance(e.op, (ast.USub, ast.UAdd)) and isinstance(e.operand, ast.Constant):
+        v = e.operand.value
+        return (-v if isinstance(e.op, ast.USub) else v) if isinstance(v, (int, float)) and not isinstance(v, bool) else None
+    if isinstance(e, ast.Constant) and isinstance(e.value, (int, float)) and not isinstance(e.value, bool):
+        return e.value
+    return None
+
+
+def _written_array(fn):
+    """the expression (locals inlined) handed to `emfile.write(path, <array>, …)` in EmMotl.write_out"""
+    found = []
+
+    def sink(expr):
+        for n in ast.walk(expr):
+            if isinstance(n, ast.Call) and isinstance(n.func, ast.Attribute) and n.func.attr == "write" \
+                    and isinstance(n.func.value, ast.Name) and n.func.value.id == "emfile":
+                arr = n.args[1] if len(n.args) >= 2 else next((k.value for k in n.keywords if k.arg == "data"), None)
+                if arr is not None:
+                    found.append(arr)
+    _flow(_body(fn), {}, sink)
+    if len(found) != 1:
+        raise core.AnchorMissing(f"EmMotl.write_out: expected exactly one `emfile.write(path, array, …)` call, found {len(found)}")
+    return found[0]
 
 
 def translate(src):
     rel = "cryocat/cryomotl.py"
     cols = src.anchor("Motl.motl_columns", lambda: src.literal(src.class_attr(rel, "Motl", "motl_columns")))
+    # every function on the two paths of the property is looked up, so that the framework's binding / live-object
+    # obligations (defined once, documented decorators, not monkey-patched) cover it
+    for qn in ("Motl.__init__", "Motl.check_df_correct_format", "Motl.check_df_type", "Motl.load", "Motl.write_out",
+               "EmMotl.__init__", "EmMotl.convert_to_motl", "EmMotl.read_in", "EmMotl.write_out"):
+        src.anchor(f"def:{qn}", lambda qn=qn: (src.find(rel, qn), True)[1])
 
     def read_guard():
-        """`if not len(<x>) == K: raise` / `if len(<x>) != K: raise`  ->  K   (structural: no variable names)"""
+        """`if not <a> == K: raise` / `if <a> != K: raise` (K an int literal on either side)  ->  K; names are free"""
         fn = src.find(rel, "EmMotl.read_in")
+        ks = []
         for st in ast.walk(fn):
             if not (isinstance(st, ast.If) and any(isinstance(b, ast.Raise) for b in st.body)):
                 continue
             t, neg = st.test, False
             if isinstance(t, ast.UnaryOp) and isinstance(t.op, ast.Not):
                 t, neg = t.operand, True
-            if isinstance(t, ast.Compare) and len(t.ops) == 1 and isinstance(t.comparators[0], ast.Constant) \
-                    and isinstance(t.left, ast.Call) and isinstance(t.left.func, ast.Name) and t.left.func.id == "len":
+            if isinstance(t, ast.Compare) and len(t.ops) == 1:
+                sides = [t.left, t.comparators[0]]
+                consts = [s.value for s in sides if isinstance(s, ast.Constant) and isinstance(s.value, int) and not isinstance(s.value, bool)]
                 rejects_unless_equal = (neg and isinstance(t.ops[0], ast.Eq)) or ((not neg) and isinstance(t.ops[0], ast.NotEq))
-                if rejects_unless_equal and isinstance(t.comparators[0].value, int):
-                    return int(t.comparators[0].value)
-        raise core.AnchorMissing("EmMotl.read_in: no `if not len(..) == K: raise` guard")
+                if rejects_unless_equal and len(consts) == 1:
+                    ks.append((int(consts[0]), ast.unparse(st.test)))
+        if len({k for k, _ in ks}) != 1:
+            raise core.AnchorMissing("EmMotl.read_in: expected one guard `if not <columns> == K: raise` "
+                                     f"(was `if not len(parsed_emfile[0][0]) == 20`), found {[t for _, t in ks]}")
+        return ks[0][0]
 
     n20 = src.anchor("EmMotl.read_in:rejects-unless-K-columns", read_guard)
 
-    def write_feed():
-        """the expression whose .to_numpy() is written: must select Motl.motl_columns by name and fillna(0.0)"""
-        fn = src.find(rel, "EmMotl.write_out")
-        body = _no_doc(fn)
-        assigns = {}
-        for st in body:
-            if isinstance(st, ast.Assign) and len(st.targets) == 1 and isinstance(st.targets[0], ast.Name):
-                assigns.setdefault(st.targets[0].id, []).append(st.value)
-        feed = None
-        for st in body:
-            for n in ast.walk(st):
-                if isinstance(n, ast.Call) and isinstance(n.func, ast.Attribute) and n.func.attr == "to_numpy":
-                    feed = n.func.value
-        if feed is None:
-            raise core.AnchorMissing("EmMotl.write_out: no .to_numpy() call")
-        seen, exprs = set(), [feed]
-        while exprs:  # follow local names back to their definitions
-            e = exprs.pop()
-            for n in ast.walk(e):
-                if isinstance(n, ast.Name) and n.id in assigns and n.id not in seen:
-                    seen.add(n.id)
-                    exprs.extend(assigns[n.id])
-            yield_txt = ast.unparse(e).replace(" ", "")
-            write_feed.txt = getattr(write_feed, "txt", "") + "|" + yield_txt
-        txt = write_feed.txt
-        write_feed.txt = ""
-        selects = any(k in txt for k in ("[Motl.motl_columns]", "[self.motl_columns]", "columns=Motl.motl_columns", ",Motl.motl_columns]"))
-        fills = ".fillna(0.0)" in txt or ".fillna(0)" in txt
-        return [selects, fills]
+    def write_facts():
+        """facts about the array EmMotl.write_out hands to emfile.write, read off its data-flow expression:
+        [selected by `[…motl_columns]`, fill literal of `.fillna(<number>)` or None, last cast is to single precision]"""
+        arr = _written_array(src.find(rel, "EmMotl.write_out"))
+        selects, fills, casts = False, [], []
+        for n in ast.walk(arr):
+            if isinstance(n, ast.Subscript):
+                sl = n.slice.elts[-1] if isinstance(n.slice, ast.Tuple) and n.slice.elts else n.slice  # df[c] / df.loc[:, c]
+                selects = selects or _is_motl_columns(sl)
+            if isinstance(n, ast.Call):
+                fname = n.func.attr if isinstance(n.func, ast.Attribute) else (n.func.id if isinstance(n.func, ast.Name) else None)
+                kw = {k.arg: k.value for k in n.keywords if k.arg}
+                if fname in ("reindex", "filter") and _is_motl_columns(kw.get("columns", kw.get("items", None))):
+                    selects = True
+                if fname == "fillna":
+                    v = _number(n.args[0] if n.args else kw.get("value"))
+                    if v is None:
+                        raise core.AnchorMissing(f"EmMotl.write_out: fill value of `{ast.unparse(n)[-60:]}` is not a number literal (was `.fillna(0.0)`)")
+                    fills.append(v)
+                if fname == "astype" and (n.args or "dtype" in kw):
+                    casts.append((n.lineno, n.col_offset, _dtype_name(n.args[0] if n.args else kw["dtype"])))
+                elif fname in ("asarray", "array", "ascontiguousarray") and "dtype" in kw:
+                    casts.append((n.lineno, n.col_offset, _dtype_name(kw["dtype"])))
+        if len(set(fills)) > 1:
+            raise core.AnchorMissing(f"EmMotl.write_out: several different fill values {sorted(set(fills))} (was one `.fillna(0.0)`)")
+        fill = fills[0] if fills else None
+        if fill is not None and float(fill) != int(fill):
+            raise core.AnchorMissing(f"EmMotl.write_out: fill value {fill} is not an integer (was `.fillna(0.0)`)")
+        names = {d for _, _, d in casts}
+        single = bool(casts) and names <= (_SINGLE | _DOUBLE) and bool(names & _SINGLE)   # to single, never through a narrower type
+        return [bool(selects), None if fill is None else int(fill), single]
 
-    wf = src.anchor("EmMotl.write_out:to_numpy-feed(selects motl_columns, fillna 0)", write_feed)
-
-    def cast_single():
-        fn = src.find(rel, "EmMotl.write_out")
-        txt = "".join(ast.unparse(st).replace(" ", "") for st in _no_doc(fn))
-        return any(k in txt for k in (".astype(np.single)", ".astype(np.float32)", "dtype=np.single", "dtype=np.float32"))
-
-    cs = src.anchor("EmMotl.write_out:astype(np.single)", cast_single)
+    wf = src.anchor("EmMotl.write_out:array-written(selects motl_columns, fill literal, cast single)", write_facts)
     cols = cols if isinstance(cols, list) and all(isinstance(c, str) for c in cols) else DOCUMENTED
-    sel, fills = (wf if isinstance(wf, list) else [False, False])
+    sel, fill, cs = (wf if isinstance(wf, list) else [True, 0, True])   # documented fallbacks: a missing anchor never changes the model
+    fill_txt = "none" if fill is None else f"some ({fill})"
     return f"""-- GENERATED by harness/props/c01.py from {rel}; do not edit
 import CryoCat.Model.Particle
 namespace CryoCat.Gen.C01
@@ -95,39 +190,62 @@ def anchorsOk : Bool := {"true" if src.ok else "false"}
 def motlColumnNames : List String := {core.lean_str_list(cols)}
 def readExpectedColumns : Nat := {n20 if n20 is not None else 20}
 def writeSelectsCanonical : Bool := {"true" if sel else "false"}
-def writeFillsMissingWithZero : Bool := {"true" if fills else "false"}
+def writeFill : Option Int := {fill_txt}
 def writeCastsSingle : Bool := {"true" if cs else "false"}
 end CryoCat.Gen.C01
 """
 
 
 # ------------------------------------------------------------------ independent EM parser
-def parse_em(path):
-    raw = open(path, "rb").read()
-    machine, _, _, dtype = raw[0], raw[1], raw[2], raw[3]
+def parse_em(raw):
+    """the harness's own reader of the EM byte layout (512-byte header: machine, 2 unused bytes, data-type code, three
+    little-endian int32 extents x/y/z; payload little-endian). Only used for the Python-side oracle and for messages; the
+    verdict on the bytes themselves comes from the Lean checker `checkFile`."""
+    if len(raw) < 512:
+        return dict(machine=None, dtype=None, dims=[0, 0, 0], size_ok=False, data=[])
+    machine, dtype = raw[0], raw[3]
     nx, ny, nz = struct.unpack("<3i", raw[4:16])
     payload = raw[512:]
-    n = nx * ny * nz
-    ok = (len(payload) == 4 * n)
-    data = list(struct.unpack(f"<{len(payload)//4}I", payload[: 4 * (len(payload) // 4)]))
+    ok = (len(payload) == 4 * nx * ny * nz)
+    data = np.frombuffer(payload[: 4 * (len(payload) // 4)], dtype="<u4").tolist()
     return dict(machine=machine, dtype=dtype, dims=[nx, ny, nz], size_ok=ok, data=data)
 
 
 # ------------------------------------------------------------------ generators
+F32_MAX = float(np.finfo(np.float32).max)
+
+
+def _tie(rng):
+    """an exact half-ulp tie of float32 (midpoint of two neighbouring float32 numbers), of either sign, over the whole
+    exponent range: ordinary magnitudes, tiny normals, subnormals (incl. half of the smallest subnormal) and huge values"""
+    k = rng.random()
+    if k < 0.5:
+        base = np.float32(rng.uniform(1, 1000))
+    elif k < 0.65:
+        base = np.float32(rng.uniform(1, 2) * 2.0 ** rng.randint(-126, -100))     # tiny normal
+    elif k < 0.8:
+        base = np.float32(rng.randint(0, 50) * 2.0 ** -149)                        # subnormal grid (0 -> tie between 0 and 2^-149)
+    else:
+        base = np.float32(rng.uniform(1, 1.9) * 2.0 ** rng.randint(100, 126))     # huge, midpoint stays below float32 max
+    nxt = np.nextafter(base, np.float32(np.inf))
+    v = (float(base) + float(nxt)) / 2
+    return -v if rng.random() < 0.5 else v
+
+
 def _value(rng):
     k = rng.random()
-    if k < 0.30:
+    if k < 0.28:
         return float(rng.randint(-50, 500))
-    if k < 0.55:
+    if k < 0.50:
         return rng.gauss(0, 100)
-    if k < 0.65:  # exact half-ulp tie of float32
-        base = np.float32(rng.uniform(1, 1000))
-        nxt = np.nextafter(base, np.float32(np.inf))
-        return (float(base) + float(nxt)) / 2
+    if k < 0.56:
+        return round(rng.uniform(-360, 360), rng.choice([1, 2, 3]))   # decimal angles / scores off the dyadic grid
+    if k < 0.66:
+        return _tie(rng)
     if k < 0.72:
-        return rng.choice([1e-40, -3e-42, 1.1754944e-38, 1e-46])  # subnormal / underflow range
+        return rng.choice([1e-40, -3e-42, 1.1754944e-38, 1e-46, -1e-46])  # subnormal / underflow range
     if k < 0.78:
-        return rng.choice([3.4e38, -3.3e38, 1e30])
+        return rng.choice([3.4e38, -3.3e38, 1e30, F32_MAX, -F32_MAX])
     if k < 0.83:
         return rng.choice([0.0, -0.0])
     if k < 0.93:
@@ -148,6 +266,75 @@ def _perm(rng):
     return cols
 
 
+def _duplicate(rng, rows, cols):
+    """particle lists legitimately hold repeated rows / repeated ids: the round trip keeps every one of them"""
+    N = len(rows)
+    kind = rng.choice(["adjacent", "nonadjacent", "all_equal", "id_pairs", "nan_twin"])
+    if kind == "adjacent" or (kind == "nonadjacent" and N < 3):
+        i = rng.randrange(N - 1)
+        rows[i + 1] = list(rows[i]); kind = "adjacent"
+    elif kind == "nonadjacent":
+        i = rng.randrange(N - 2); j = rng.randrange(i + 2, N)
+        rows[j] = list(rows[i])
+    elif kind == "all_equal":
+        for i in range(1, N):
+            rows[i] = list(rows[0])
+    elif kind == "id_pairs":                       # same (tomo_id, subtomo_id) on several particles, other fields differ
+        ti, si = cols.index("tomo_id"), cols.index("subtomo_id")
+        for i in range(N):
+            rows[i][ti] = f2b(float(1 + (i % 2))); rows[i][si] = f2b(float(7 + (i // 2) % 2))
+    else:                                          # two particles equal, both with holes in the same places
+        i = rng.randrange(N - 1)
+        rows[i][rng.randrange(20)] = f2b(float("nan"))
+        rows[rng.randrange(i + 1, N)] = list(rows[i])
+    return kind
+
+
+FIXED_N = {"quick": [64, 65, 256, 257, 1000], "thorough": [64, 65, 256, 257, 1000, 1024, 4096, 4099], "search": []}
+
+
+def _one(rng, N, tier):
+    cols = _perm(rng)
+    rows = [[f2b(_value(rng)) for _ in range(20)] for _ in range(N)]
+    if rng.random() < 0.08:                        # a particle with every field missing must come back as 20 zeros
+        rows[rng.randrange(N)] = [f2b(float("nan"))] * 20
+    if rng.random() < 0.10:                        # tiny non-zero magnitudes (below float32 eps, above its smallest subnormal)
+        rows[rng.randrange(N)][rng.randrange(20)] = f2b(rng.choice([3e-8, -7.5e-10, 1e-20, -2.5e-30, 1.2e-7]))
+    case = dict(cols=cols, rows=rows, build=rng.choice(["dict", "reindex", "late_nan"]))
+    if rng.random() < 0.15:                        # H3: integer-typed columns (ids, class … read from an all-integer text table are int64)
+        k = rng.choice([1, 3, 20])
+        ints = rng.sample(cols, k)
+        for r in rows:
+            for c in ints:
+                # ids / classes, and now and then integers that float32 cannot hold (2^24+1 is a half-ulp tie)
+                r[cols.index(c)] = f2b(float(rng.randint(-3, 300) if rng.random() < 0.9 else rng.choice([16777217, -16777219, 33554435, 2147483647, 123456789])))
+        case["int_cols"] = sorted(ints)
+    if N >= 2 and rng.random() < 0.18:             # repeated rows / repeated ids (after the integer columns: copies stay copies)
+        case["dup"] = _duplicate(rng, rows, cols)
+    k = rng.random()                               # row labels of the DataFrame (a list is its rows in order, whatever the labels)
+    if k < 0.45 and N >= 2:
+        case["index"] = rng.choice(["permuted", "offset", "sparse", "duplicated"])
+    # G1/H3: every way the documented API lets a user ask for an EM file and load it again
+    case["wtype"] = rng.choice([None, None, "emmotl", "emmotl", "kw:emmotl", "EMMOTL", "EmMotl"])   # None: keyword omitted (default)
+    case["load"] = rng.choice(["default", "default", "typed", "kw", "ctor"])
+    case["path"] = rng.choice(["str", "str", "pathlib"])
+    case["same_path_twice"] = rng.random() < 0.2   # G2: the path already holds another (longer) list before the write
+    if N >= 2 and rng.random() < 0.25:             # history: load the written file, drop particles, write again
+        keep = sorted(rng.sample(range(N), rng.randint(1, N - 1)))
+        case["reload_keep"] = keep
+    if rng.random() < 0.04 and tier != "fixed":    # malformed header (outside the quantifier; the model's constructor refuses it)
+        bad = list(cols)
+        if rng.random() < 0.5:
+            bad[rng.randrange(20)] = "extra"
+        else:
+            bad = bad[:-1]
+            case["rows"] = [r[:-1] for r in rows]
+        case["cols"] = bad
+        case["malformed"] = True
+        case.pop("int_cols", None)
+    return case
+
+
 def generate(rng, tier, n):
     maxn = {"quick": 40, "thorough": 2000, "search": 12}[tier]
     if tier == "thorough":  # every transposition of two columns
@@ -155,49 +342,48 @@ def generate(rng, tier, n):
             for j in range(i + 1, 20):
                 cols = list(DOCUMENTED); cols[i], cols[j] = cols[j], cols[i]
                 yield dict(cols=cols, rows=[[f2b(float(c + 1)) for c in range(20)], [f2b(_value(rng)) for _ in range(20)]], build="dict")
+    for N in FIXED_N[tier]:                            # counts around powers of two / block sizes and one large list, always present
+        yield _one(rng, N, "fixed")
+    if tier in ("quick", "thorough"):                 # the smallest repeated list: N = 2, both particles identical
+        two = _one(rng, 2, "fixed"); two["rows"][1] = list(two["rows"][0]); two["dup"] = "two_identical"
+        two.pop("reload_keep", None)
+        yield two
     for t in range(n):
         N = 1 if rng.random() < 0.05 else (rng.randint(1, maxn) if rng.random() < 0.15 else rng.randint(1, min(maxn, 40)))
         if rng.random() < 0.06:
             N = 20                                     # the one N at which particle and field axes look alike
-        cols = _perm(rng)
-        rows = [[f2b(_value(rng)) for _ in range(20)] for _ in range(N)]
-        if rng.random() < 0.08:                        # a particle with every field missing must come back as 20 zeros
-            rows[rng.randrange(N)] = [f2b(float("nan"))] * 20
-        if rng.random() < 0.10:                        # tiny non-zero magnitudes (below float32 eps, above its smallest subnormal)
-            rows[rng.randrange(N)][rng.randrange(20)] = f2b(rng.choice([3e-8, -7.5e-10, 1e-20, -2.5e-30, 1.2e-7]))
-        case = dict(cols=cols, rows=rows, build=rng.choice(["dict", "reindex", "late_nan"]))
-        k = rng.random()                              # row labels of the DataFrame (a list is its rows in order, whatever the labels)
-        if k < 0.45 and N >= 2:
-            case["index"] = rng.choice(["permuted", "offset", "sparse", "duplicated"])
-        case["default_type"] = rng.random() < 0.3      # G1: Motl.write_out(p) without motl_type (default must be 'emmotl')
-        case["same_path_twice"] = rng.random() < 0.2   # G2: the path already holds another (longer) list before the write
-        if N >= 2 and rng.random() < 0.25:             # history: load the written file, drop particles, write again
-            keep = sorted(rng.sample(range(N), rng.randint(1, N - 1)))
-            case["reload_keep"] = keep
-        if rng.random() < 0.04:  # malformed header: the constructor must refuse
-            bad = list(cols)
-            if rng.random() < 0.5:
-                bad[rng.randrange(20)] = "extra"
-            else:
-                bad = bad[:-1]
-                case["rows"] = [r[:-1] for r in rows]
-            case["cols"] = bad
-            case["malformed"] = True
-        yield case
+        yield _one(rng, N, tier)
 
 
 def shrink(case):
     if case.get("malformed"):
         return
     rows = case["rows"]
+    base = {k: v for k, v in case.items() if k != "reload_keep"} if case.get("reload_keep") else case
     if len(rows) > 1:
-        yield dict(case, rows=rows[:1])
-        yield dict(case, rows=rows[: len(rows) // 2])
-        yield dict(case, rows=rows[len(rows) // 2:])
-    # small distinct integers
-    simple = [[f2b(float(100 * i + j + 1)) for j in range(20)] for i in range(len(rows))]
+        for sub in (rows[:1], rows[:2], rows[: len(rows) // 2], rows[len(rows) // 2:]):
+            if 0 < len(sub) < len(rows):
+                c = dict(base, rows=sub)
+                if case.get("reload_keep"):
+                    keep = [i for i in case["reload_keep"] if i < len(sub)] if sub is not rows[len(rows) // 2:] else []
+                    if keep and len(keep) < len(sub):
+                        c["reload_keep"] = keep
+                yield c
+    # small distinct integers (keeping which rows are copies of which, so that a failure about repeated rows survives)
+    first = {}
+    simple = []
+    for i, r in enumerate(rows):
+        j = first.setdefault(tuple(r), i)
+        simple.append([f2b(float(100 * j + k + 1)) for k in range(len(r))])
     if rows != simple:
         yield dict(case, rows=simple)
+    # plain options one at a time
+    for k, plain in (("index", None), ("int_cols", None), ("wtype", "emmotl"), ("load", "default"), ("path", "str"), ("same_path_twice", False), ("build", "dict")):
+        if case.get(k) not in (plain, None) or (k in case and case[k] is None and plain is not None):
+            c = dict(case); c.pop(k, None)
+            if plain is not None:
+                c[k] = plain
+            yield c
     # undo displaced columns one at a time
     cols = case["cols"]
     for i, c in enumerate(cols):
@@ -212,16 +398,26 @@ def shrink(case):
 
 
 # ------------------------------------------------------------------ implementation
+def _in_cryocat(e):
+    import traceback
+    return any("/cryocat/" in fr.filename for fr in traceback.extract_tb(e.__traceback__))
+
+
 def run_impl(case):
-    import pandas as pd
+    import pandas as pd, pathlib
     from cryocat import cryomotl
     cols, rows = case["cols"], case["rows"]
+    malformed = bool(case.get("malformed"))
     vals = [[b2f(b) for b in r] for r in rows]
-    if case.get("build") == "reindex" and not case.get("malformed"):
+    if case.get("build") == "reindex" and not malformed:
         base = pd.DataFrame({c: [v[cols.index(c)] for v in vals] for c in DOCUMENTED}, dtype=float)
         df = base[cols]
     else:
         df = pd.DataFrame({c: [v[i] for v in vals] for i, c in enumerate(cols)}, dtype=float)
+    for c in case.get("int_cols") or []:
+        col = df[c]
+        if not col.isna().any() and (col == col.round()).all():
+            df[c] = col.astype("int64")
     n = len(df)
     ik = case.get("index")
     if ik == "permuted":
@@ -233,49 +429,78 @@ def run_impl(case):
     elif ik == "duplicated":
         df.index = [i // 2 for i in range(n)]
     out = {}
-    late = case.get("build") == "late_nan" and not case.get("malformed")
+    late = case.get("build") == "late_nan" and not malformed
+    wtype = case.get("wtype", "emmotl" if not case.get("default_type") else None)
+    load_kind = case.get("load", "default")
+
+    def write_motl(m, p):
+        if wtype is None:
+            m.write_out(p)                       # documented default of motl_type
+        elif wtype.startswith("kw:"):
+            m.write_out(p, motl_type=wtype[3:])
+        else:
+            m.write_out(p, wtype)                # 'emmotl' / 'EMMOTL' / 'EmMotl' (the type is matched case-insensitively)
+
+    def load(p):
+        q = pathlib.Path(p) if case.get("path") == "pathlib" else p     # loading documents str and Path
+        if load_kind == "typed":
+            return cryomotl.Motl.load(q, "emmotl")
+        if load_kind == "kw":
+            return cryomotl.Motl.load(q, motl_type="emmotl")
+        if load_kind == "ctor":
+            return cryomotl.EmMotl(q)
+        return cryomotl.Motl.load(q)
+
     with tempfile.TemporaryDirectory(prefix="c01_") as td:
         for path_kind in ("motl", "emmotl"):
             p = os.path.join(td, f"{path_kind}.em")
-            if case.get("same_path_twice") and not case.get("malformed"):
+            cls = cryomotl.Motl if path_kind == "motl" else cryomotl.EmMotl
+            if case.get("same_path_twice") and not malformed:
                 # the same path first receives a different, longer list (and is loaded once): state must not carry over
                 other = pd.DataFrame({c: np.arange(len(df) + 3, dtype=float) + k for k, c in enumerate(DOCUMENTED)})
                 cryomotl.EmMotl(other).write_out(p)
                 cryomotl.Motl.load(p)
-            wo = (lambda m: m.write_out(p)) if case.get("default_type") else (lambda m: m.write_out(p, "emmotl"))
+            stage = "construct"
             try:
                 if late:
                     # holes appear AFTER construction (the constructor's own fillna cannot help the writer)
-                    mm = (cryomotl.Motl if path_kind == "motl" else cryomotl.EmMotl)(df.fillna(1.0))
-                    if list(mm.df.columns) == list(df.columns) and len(mm.df) == len(df):
-                        mm.df = pd.DataFrame(np.where(df.isna().to_numpy(), np.nan, mm.df.to_numpy(dtype=float)), columns=mm.df.columns, index=mm.df.index)
-                    if path_kind == "motl":
-                        wo(mm)
-                    else:
-                        mm.write_out(p)
-                elif path_kind == "motl":
-                    wo(cryomotl.Motl(df.copy()))
+                    mm = cls(df.fillna(1.0))
+                    if sorted(map(str, mm.df.columns)) != sorted(map(str, df.columns)) or len(mm.df) != len(df):
+                        out[path_kind] = {"dropped": "constructor changed the table's shape; holes cannot be re-installed"}
+                        continue
+                    kept = list(mm.df.columns)       # by column NAME: the constructor may keep any column order
+                    mask = df.isna()[kept].to_numpy()
+                    mm.df = pd.DataFrame(np.where(mask, np.nan, mm.df.to_numpy(dtype=float)), columns=kept, index=mm.df.index)
                 else:
-                    cryomotl.EmMotl(df.copy()).write_out(p)
-            except ValueError as e:
-                out[path_kind] = {"reject": "format"}
-                continue
-            em = parse_em(p)
-            m = cryomotl.Motl.load(p)
+                    mm = cls(df.copy())
+                stage = "write"
+                if path_kind == "motl":
+                    write_motl(mm, p)
+                else:
+                    mm.write_out(p)
+            except Exception as e:
+                if malformed and _in_cryocat(e):
+                    # H1: a refusal is a refusal whatever exception type / message the library chooses
+                    out[path_kind] = {"reject": type(e).__name__, "stage": stage}
+                    continue
+                if malformed:
+                    out[path_kind] = {"library_raised": f"{type(e).__name__}: {str(e)[:200]}", "stage": stage}
+                    continue
+                raise
+            em = {"hex": open(p, "rb").read().hex()}     # the file itself; judged on bytes by the Lean checker
+            m = load(p)
             em["loaded_cols"] = [str(c) for c in m.df.columns]
             em["loaded"] = [[f2b(x) for x in row] for row in m.df.to_numpy(dtype=float).tolist()]
             em["loaded_type"] = type(m).__name__
             em["loaded_dtypes"] = sorted({str(t) for t in m.df.dtypes})
-            if case.get("reload_keep") and path_kind == "emmotl":
+            if case.get("reload_keep") and path_kind == "emmotl" and len(m.df) == len(rows):   # (a wrong particle count is already a finding)
                 keep = case["reload_keep"]
                 ids = [i for i in range(len(m.df)) if i not in keep]
                 m.df = m.df.drop(index=m.df.index[ids]).reset_index(drop=True) if rng_free_choice(case) else m.df.iloc[keep]
                 p2 = os.path.join(td, "again.em")
                 m.write_out(p2)
-                em2 = parse_em(p2)
                 m2 = cryomotl.Motl.load(p2)
-                em["reload"] = dict(dims=em2["dims"], dtype=em2["dtype"], size_ok=em2["size_ok"], data=em2["data"],
-                                    loaded=[[f2b(x) for x in row] for row in m2.df.to_numpy(dtype=float).tolist()])
+                em["reload"] = dict(hex=open(p2, "rb").read().hex(), loaded=[[f2b(x) for x in row] for row in m2.df.to_numpy(dtype=float).tolist()])
             out[path_kind] = em
     return out
 
@@ -286,73 +511,157 @@ def rng_free_choice(case):
 
 
 def requests(case, obs):
+    """one `roundtrip` request per table: the model's file (bytes), the model's loaded table, and the verdict of the Lean
+    checker `checkFile` on the bytes of every REAL file handed over; the load/drop/write-again file is judged against the
+    table of the kept particles"""
     if case.get("malformed"):
-        return []
-    return [dict(op="roundtrip", cols=case["cols"], rows=case["rows"])]
+        return [dict(op="accepts", cols=case["cols"])]
+    files = {k: o["hex"] for k, o in obs.items() if isinstance(o, dict) and "hex" in o} if "error" not in obs else {}
+    reqs = [dict(op="roundtrip", cols=case["cols"], rows=case["rows"], files=files)]
+    for k, o in (obs.items() if "error" not in obs else []):
+        if isinstance(o, dict) and "reload" in o:
+            reqs.append(dict(op="roundtrip", cols=case["cols"], rows=[case["rows"][i] for i in case["reload_keep"]], files={"reload": o["reload"]["hex"]}))
+    return reqs
 
 
 def _expected(case):
-    """the property, evaluated independently of model and implementation"""
+    """the property, evaluated independently of model and implementation: per particle the 20 NAMED fields in the
+    documented order, missing -> 0, everything else -> its single-precision rounding (float32 bit patterns)"""
     cols, rows = case["cols"], case["rows"]
-    data = []
-    for r in rows:
-        named = dict(zip(cols, r))
-        for f in DOCUMENTED:
-            v = b2f(named[f])
-            v = 0.0 if math.isnan(v) else v
-            data.append(int(np.array([v], dtype=np.float64).astype(np.float32).view(np.uint32)[0]))
-    return data
+    a = np.array([[b2f(dict(zip(cols, r))[f]) for f in DOCUMENTED] for r in rows], dtype=np.float64)
+    a = np.where(np.isnan(a), 0.0, a)
+    with np.errstate(over="ignore", under="ignore"):
+        return a.astype(np.float32).reshape(-1).view(np.uint32).tolist()
+
+
+def _same32(a, b):
+    """lists of float32 bit patterns equal AS NUMBERS: the statement asks for values "equal to" the single-precision
+    rounding, and -0.0 == +0.0; every other value (NaN included: missing reads back as 0) must match bit for bit.
+    Returns the first differing index or None."""
+    if len(a) != len(b):
+        return min(len(a), len(b))
+    if a == b:
+        return None
+    x, y = np.array(a, dtype=np.uint64), np.array(b, dtype=np.uint64)
+    bad = (x != y) & ~(((x & 0x7FFFFFFF) == 0) & ((y & 0x7FFFFFFF) == 0))
+    idx = np.flatnonzero(bad)
+    return int(idx[0]) if len(idx) else None
+
+
+def _same64(a, b):
+    """the same for float64 bit patterns (rows of the loaded table)"""
+    fa = [x for r in a for x in r]; fb = [x for r in b for x in r]
+    if [len(r) for r in a] != [len(r) for r in b]:
+        return 0
+    if fa == fb:
+        return None
+    x, y = np.array(fa, dtype=np.uint64), np.array(fb, dtype=np.uint64)
+    m = np.uint64(0x7FFFFFFFFFFFFFFF)
+    bad = (x != y) & ~(((x & m) == 0) & ((y & m) == 0))
+    idx = np.flatnonzero(bad)
+    return int(idx[0]) if len(idx) else None
+
+
+def _widen(bits32):
+    return [[f2b(float(v)) for v in np.array(bits32[20 * i:20 * i + 20], dtype=np.uint32).view(np.float32)] for i in range(len(bits32) // 20)]
+
+
+def _file_findings(k, raw, exp, n, verdict, model_file, clause_shape, clause_value):
+    """findings about one real file: the Lean checker's verdict on its bytes (spec), the Python oracle on the same
+    bytes (spec, independent of model and implementation), and the byte comparison with the model's file (corr)"""
+    out = []
+    em = parse_em(raw)
+    v = (verdict or {}).get("verdict")
+    py = None
+    if em["dims"] != [20, n, 1] or em["dtype"] != 5 or em["machine"] != 6 or not em["size_ok"]:
+        py = (clause_shape, f"{k}: dims={em['dims']} (20 x {n} x 1 expected) dtype={em['dtype']} machine={em['machine']} payload-size-ok={em['size_ok']}")
+    else:
+        i = _same32(em["data"], exp)
+        if i is not None:
+            py = (clause_value, f"{k}: particle {i//20} field {DOCUMENTED[i%20]}: file holds bits {em['data'][i]:#x}, property demands {exp[i]:#x}")
+    if v is None:
+        out.append(dict(kind="corr", clause="no-verdict", detail=f"{k}: the driver returned no verdict for this file: {verdict}"))
+        if py:
+            out.append(dict(kind="spec", clause=py[0], detail=py[1] + " [Python oracle]"))
+    elif v != "ok":
+        if v == "value":
+            i = verdict["index"]
+            d = f"{k}: particle {i//20} field {DOCUMENTED[i%20]}: file holds bits {verdict['have']:#x}, property demands {verdict['want']:#x}"
+            out.append(dict(kind="spec", clause=clause_value, detail=d + " [Lean checkFile on the file's bytes]"))
+        else:
+            d = f"{k}: not a valid float32 EM volume of extents 20 x {n} x 1: {verdict}" + (f"; {py[1]}" if py else "")
+            out.append(dict(kind="spec", clause=clause_shape, detail=d + " [Lean checkFile on the file's bytes]"))
+        if py is None:
+            out.append(dict(kind="corr", clause="checker-vs-oracle", detail=f"{k}: Lean verdict {verdict} but the Python oracle accepts the file"))
+    elif py is not None:
+        out.append(dict(kind="spec", clause=py[0], detail=py[1] + " [Python oracle]"))
+        out.append(dict(kind="corr", clause="checker-vs-oracle", detail=f"{k}: the Python oracle rejects a file the Lean checker accepts"))
+    if model_file is not None:
+        mraw = bytes.fromhex(model_file["hex"])
+        if mraw[:512] != raw[:512]:
+            j = next((j for j in range(min(512, len(raw))) if mraw[j] != raw[j]), min(512, len(raw)))
+            out.append(dict(kind="corr", clause="file-vs-model", detail=f"{k}: header byte {j} differs from the model's encodeEm ({raw[j:j+1].hex()} vs {mraw[j:j+1].hex()})"))
+        elif len(mraw) != len(raw) or _same32(np.frombuffer(mraw[512:], dtype="<u4").tolist(), em["data"]) is not None:
+            out.append(dict(kind="corr", clause="file-vs-model", detail=f"{k}: payload differs from the model's encodeEm(writeGen)"))
+    return out
 
 
 def judge(case, obs, resps):
     out = []
     if "error" in obs:
+        if not obs.get("where"):   # G4: no frame inside cryocat/
+            return [dict(kind="corr", clause="harness-or-library-raised", detail=obs["error"])]
         return [dict(kind="spec", clause="raises", detail=obs["error"] + " @" + obs.get("where", ""))]
     if case.get("malformed"):
+        # outside the quantifier of the property (the table does not hold exactly the 20 fields): the model's constructor
+        # refuses it; an implementation that does not is a model/implementation difference, not a violated clause
+        model_accepts = bool(resps and resps[0].get("accepted"))
         for k, o in obs.items():
-            if "reject" not in o:
-                out.append(dict(kind="spec", clause="accepts-malformed-header", detail=f"{k}: header {case['cols']} accepted"))
+            if "library_raised" in o:
+                out.append(dict(kind="corr", clause="harness-or-library-raised", detail=f"{k}: {o['library_raised']} during {o['stage']}"))
+            elif "reject" not in o and not model_accepts:
+                out.append(dict(kind="corr", clause="accepts-malformed-header", detail=f"{k}: header {case['cols']} accepted, the model's constructor refuses it"))
+            elif "reject" in o and o.get("stage") != "construct" and not model_accepts:
+                out.append(dict(kind="corr", clause="malformed-header-refused-late", detail=f"{k}: header {case['cols']} passed the constructor and failed in write_out with {o['reject']}"))
         return out
     exp = _expected(case)
     N = len(case["rows"])
     model = resps[0]
+    model_ok = "error" not in model
+    if not model_ok:
+        out.append(dict(kind="corr", clause="model-rejects", detail=str(model)))
     for k, o in obs.items():
-        if "reject" in o:
-            out.append(dict(kind="spec", clause="rejects-valid-table", detail=f"{k}: {case['cols']}")); continue
-        if o["dims"] != [20, N, 1] or o["dtype"] != 5 or not o["size_ok"]:
-            out.append(dict(kind="spec", clause="file-shape", detail=f"{k}: dims={o['dims']} dtype={o['dtype']} size_ok={o['size_ok']}"))
-        elif o["data"] != exp:
-            i = next(i for i, (a, b) in enumerate(zip(o["data"], exp)) if a != b)
-            out.append(dict(kind="spec", clause="file-field-order-or-value",
-                            detail=f"{k}: particle {i//20} field {DOCUMENTED[i%20]}: file holds bits {o['data'][i]:#x}, property demands {exp[i]:#x}"))
+        if "dropped" in o:
+            continue
+        raw = bytes.fromhex(o["hex"])
+        out += _file_findings(k, raw, exp, N, model.get("verdicts", {}).get(k) if model_ok else None, model["file"] if model_ok else None,
+                              "file-shape", "file-field-order-or-value")
         if o.get("loaded_dtypes") not in (["float64"], ["float32"]):
             out.append(dict(kind="spec", clause="loaded-values", detail=f"{k}: loaded table has column dtypes {o.get('loaded_dtypes')} (numbers expected)"))
-        if o.get("machine") != 6:
-            out.append(dict(kind="spec", clause="file-shape", detail=f"{k}: machine code {o.get('machine')} (6 = little-endian PC expected)"))
         if "reload" in o:
             keep = case["reload_keep"]
             exp2 = [b for i in keep for b in exp[20 * i:20 * i + 20]]
             r2 = o["reload"]
-            if r2["dims"] != [20, len(keep), 1] or r2["dtype"] != 5 or not r2["size_ok"]:
-                out.append(dict(kind="spec", clause="reload-file-shape", detail=f"{k}: after load / drop particles / write again: dims={r2['dims']} for {len(keep)} particles, payload ok={r2['size_ok']}"))
-            elif r2["data"] != exp2:
-                out.append(dict(kind="spec", clause="reload-values", detail=f"{k}: after load / drop particles / write again the file does not hold the kept particles"))
-            elif r2["loaded"] != [[f2b(float(np.array([b], dtype=np.uint32).view(np.float32)[0])) for b in exp2[20 * i:20 * i + 20]] for i in range(len(keep))]:
+            m2 = resps[1] if len(resps) > 1 and "error" not in resps[1] else None
+            f2 = _file_findings(k + "/after load, drop particles, write again", bytes.fromhex(r2["hex"]), exp2, len(keep),
+                                m2["verdicts"].get("reload") if m2 else None, m2["file"] if m2 else None, "reload-file-shape", "reload-values")
+            out += f2
+            if not f2 and _same64(r2["loaded"], _widen(exp2)) is not None:
                 out.append(dict(kind="spec", clause="reload-values", detail=f"{k}: second load differs from the kept particles"))
         if o["loaded_cols"] != DOCUMENTED:
             out.append(dict(kind="spec", clause="loaded-header", detail=f"{k}: {o['loaded_cols']}"))
-        exp_loaded = [[f2b(float(np.array([b], dtype=np.uint32).view(np.float32)[0])) for b in exp[20 * i:20 * i + 20]] for i in range(N)]
-        if o["loaded"] != exp_loaded:
-            out.append(dict(kind="spec", clause="loaded-values", detail=f"{k}: loaded table differs from float32-rounded named fields"))
-        # correspondence with the Lean model (same defs as the theorems)
-        if "error" in model:
-            out.append(dict(kind="corr", clause="model-rejects", detail=str(model)))
-        else:
-            if model["file"]["dims"] != o["dims"] or model["file"]["data"] != o["data"]:
-                out.append(dict(kind="corr", clause="file-vs-model", detail=f"{k}: file differs from writeEm"))
+        if o.get("loaded_type") != "EmMotl":
+            out.append(dict(kind="spec", clause="loaded-values", detail=f"{k}: loading returned a {o.get('loaded_type')}, not an EmMotl"))
+        if len(o["loaded"]) != N:
+            out.append(dict(kind="spec", clause="loaded-values", detail=f"{k}: {len(o['loaded'])} particles loaded, {N} written"))
+        elif _same64(o["loaded"], _widen(exp)) is not None:
+            i = _same64(o["loaded"], _widen(exp))
+            out.append(dict(kind="spec", clause="loaded-values", detail=f"{k}: loaded table differs from float32-rounded named fields (particle {i//20} field {DOCUMENTED[i%20]})"))
+        # correspondence of the loaded table with the Lean model (same defs as the theorems)
+        if model_ok:
             mt = model["table"]
-            if "error" in mt or mt["cols"] != o["loaded_cols"] or mt["rows"] != o["loaded"]:
-                out.append(dict(kind="corr", clause="load-vs-model", detail=f"{k}: loaded table differs from readEm(writeEm)"))
+            if "error" in mt or mt["cols"] != o["loaded_cols"] or _same64(mt["rows"], o["loaded"]) is not None:
+                out.append(dict(kind="corr", clause="load-vs-model", detail=f"{k}: loaded table differs from readEm(writeGen)"))
     return out
 
 
@@ -361,7 +670,8 @@ def nontrivial(case, obs):
         return False
     vals = [b2f(b) for r in case["rows"] for b in r]
     has_nan = any(math.isnan(v) for v in vals)
-    inexact = any((not math.isnan(v)) and float(np.float32(v)) != v for v in vals)
+    with np.errstate(over="ignore", under="ignore"):
+        inexact = any((not math.isnan(v)) and float(np.float32(v)) != v for v in vals)
     return has_nan and inexact
 
 
@@ -369,20 +679,27 @@ def stats(case, obs, resps):
     n = len(case["rows"])
     perm = "malformed" if case.get("malformed") else ("identity" if case["cols"] == DOCUMENTED else
             ("transposition" if sum(a != b for a, b in zip(case["cols"], DOCUMENTED)) == 2 else "shuffle"))
-    return {"N": "1" if n == 1 else ("20" if n == 20 else ("2-10" if n <= 10 else ("11-40" if n <= 40 else ">40"))), "perm": perm, "build": case.get("build", "dict"),
+    nb = "1" if n == 1 else ("20" if n == 20 else ("2-10" if n <= 10 else ("11-40" if n <= 40 else ("41-999" if n < 1000 else ("1000-4095" if n < 4096 else ">=4096")))))
+    return {"N": nb, "perm": perm, "build": case.get("build", "dict"),
             "history": "load-drop-write" if case.get("reload_keep") else "single round trip",
-            "row_index": case.get("index", "default"), "default_motl_type": bool(case.get("default_type")), "path_reused": bool(case.get("same_path_twice")),
+            "row_index": case.get("index", "default"), "write_type": str(case.get("wtype", "emmotl")), "load_call": case.get("load", "default"),
+            "load_path": case.get("path", "str"), "path_reused": bool(case.get("same_path_twice")),
+            "repeated_rows": case.get("dup", "none"), "int64_columns": len(case.get("int_cols") or []),
+            "late_nan_dropped": sum(1 for o in obs.values() if isinstance(o, dict) and "dropped" in o) if isinstance(obs, dict) else 0,
+            "reject_type": [o["reject"] for o in obs.values() if isinstance(o, dict) and "reject" in o] if isinstance(obs, dict) else [],
             "all_nan_row": any(all(math.isnan(b2f(b)) for b in r) for r in case["rows"])}
 
 
 def sample_view(case):
-    return dict(cols=case["cols"], n_rows=len(case["rows"]), first_row=[b2f(b) for b in case["rows"][0]], build=case.get("build"), malformed=case.get("malformed", False))
+    return dict(cols=case["cols"], n_rows=len(case["rows"]), first_row=[b2f(b) for b in case["rows"][0]], build=case.get("build"), malformed=case.get("malformed", False),
+                **{k: case[k] for k in ("dup", "int_cols", "index", "wtype", "load", "path") if case.get(k) is not None})
 
-LEVEL_TEXT = ("Lean 4 theorems about an executable model of EmMotl.write_out/read_in, for every column order, every N>=1 and all cell values "
-              "(em_roundtrip, em_roundtrip_named, em_write_perm_invariant, em_layout, em_offset, accepted_iff, em_field_order); the model is tied to the "
-              "source by regenerated tables (Motl.motl_columns, the 20 in read_in, by-name selection in write_out) and by a bit-exact differential "
-              "run of the real writer/loader against the model on generated tables")
-LEVEL_NOTE = ("trusted: Lean kernel; translator anchors; harness EM parser; numpy float32 cast = Float.toFloat32 (compared bit-exactly each run); "
-              "emfile library I/O is modelled, not verified")
-TECHNIQUE = "Lean 4 proof (list induction, by-name lookup under permutation) + regenerated tables + bit-exact differential correspondence"
+LEVEL_TEXT = ("Lean 4 theorems about an executable model of EmMotl.write_out/read_in and of the EM byte layout, for every column order, every N>=1 "
+              "and all cell values (em_roundtrip, em_roundtrip_named, em_roundtrip_gen, em_roundtrip_bytes, decodeEm_encodeEm, checkFile_ok_iff, "
+              "em_file_bytes_valid, em_write_same_named, em_layout, em_offset, accepted_iff, em_field_order); the model's writer is a function of "
+              "facts regenerated from the source (Motl.motl_columns, the 20 in read_in, by-name selection, fill literal, single-precision cast) and "
+              "the bytes of every real file are judged by the verified Lean checker and compared with the model's bytes")
+LEVEL_NOTE = ("trusted: Lean kernel; translator anchors; hex transport of file bytes; numpy float32 cast = Float.toFloat32 (compared bit-exactly each run); "
+              "emfile's header layout is modelled (compared byte for byte each run), its reader is not modelled (Motl.load is compared with readEm of the model's file)")
+TECHNIQUE = "Lean 4 proof (list induction, by-name lookup under permutation, byte-level encode/decode) + regenerated facts + verified checker on the real file's bytes + bit-exact differential correspondence"
 DESIGN_REF = "DESIGN.md section 4, C01"
